@@ -560,6 +560,8 @@ func checkDCMISensorInfo(c *Ctx, r *Report) {
 	r.Fn(c.FnName(top))
 	r.Fn(c.FnName(mapper))
 	r.Fn(c.FnName(pager))
+	// the per-family query and the pager are anchors with rules of their own
+	markOpaque(mapper, pager)
 
 	// ---- fallback
 	r.Rule("fallback", "the DCMI-specific entity IDs are queried exactly when the standard ones returned an error or no record IDs; each result field is read under the matching entity key", 5)
@@ -628,21 +630,32 @@ func checkDCMISensorInfo(c *Ctx, r *Report) {
 	r.Check(okFb, tname+"|fallback condition", second.Pos(), "fallback ⇔ err != nil ∨ no record IDs", "the DCMI entity IDs are not queried exactly when the standard query failed or returned no record IDs")
 	// field ↔ key mapping per return
 	wantKeys := map[*ssa.Call]map[string]int64{first: {"Inlet": 0x37, "CPU": 0x03, "Baseboard": 0x07}, second: {"Inlet": 0x40, "CPU": 0x41, "Baseboard": 0x42}}
-	for _, ret := range returnsOf(top) {
-		al, ok := ret.Results[0].(*ssa.Alloc)
+	// decided per path of the flattened view, so that building the result in a helper changes nothing
+	type agg struct {
+		okMap, okErr bool
+		n            int
+		pos          token.Pos
+	}
+	aggs := map[string]*agg{}
+	enumPaths(top, 1, 8192, func(p CPath) {
+		ret, isRet := p.Last().(*ssa.Return)
+		if !isRet || ret.Parent() != top {
+			return
+		}
+		al, ok := p.Resolve(ret.Results[0]).(*ssa.Alloc)
 		if !ok {
-			continue
+			return
 		}
 		f, _, _ := complitFieldsAlloc(al)
 		var src *ssa.Call
 		okMap := true
 		for fld, v := range f {
-			lk, ok := v.(*ssa.Lookup)
+			lk, ok := p.Resolve(v).(*ssa.Lookup)
 			if !ok {
 				okMap = false
 				continue
 			}
-			ex, ok := lk.X.(*ssa.Extract)
+			ex, ok := p.Resolve(lk.X).(*ssa.Extract)
 			if !ok {
 				okMap = false
 				continue
@@ -651,7 +664,7 @@ func checkDCMISensorInfo(c *Ctx, r *Report) {
 			if src == nil {
 				src = call
 			}
-			k, isK := constInt(lk.Index)
+			k, isK := constInt(p.Resolve(lk.Index))
 			if call != src || !isK || wantKeys[call] == nil || wantKeys[call][fld] != k {
 				okMap = false
 			}
@@ -660,21 +673,43 @@ func checkDCMISensorInfo(c *Ctx, r *Report) {
 		if src == second {
 			which = "DCMI"
 		}
-		r.Check(okMap && len(f) == 3, tname+"|"+which+" result mapping", ret.Pos(), "Inlet/CPU/Baseboard read under their entity keys", "result fields are not read from the map under the matching entity IDs")
+		a := aggs[which]
+		if a == nil {
+			a = &agg{okMap: true, okErr: true, pos: ret.Pos()}
+			aggs[which] = a
+		}
+		a.n++
+		if !(okMap && len(f) == 3) {
+			a.okMap = false
+		}
 		// the DCMI-family result must be behind the second call's err == nil
 		if src == second {
-			okErr := false
-			for _, ifi := range ifsOf(top) {
-				op, x, y, _, isBin := condOf(ifi.Cond)
-				if isBin && op == token.NEQ && isNilConst(y) {
-					if ex, ok := x.(*ssa.Extract); ok && ex.Tuple == ssa.Value(second) {
-						if !reachAvoiding(top, nil, nil, map[edge]bool{{ifi.Block(), ifi.Block().Succs[1]}: true})[ret.Block()] {
-							okErr = true
-						}
+			tested := false
+			for _, tk := range p.Ifs() {
+				op, x, y, neg, isBin := condOf(tk.If.Cond)
+				if !isBin || !isNilConst(y) || (op != token.NEQ && op != token.EQL) {
+					continue
+				}
+				if ex, ok := p.Resolve(x).(*ssa.Extract); ok && ex.Tuple == ssa.Value(second) && ex.Index == 1 {
+					arm := tk.Arm != neg
+					if (op == token.NEQ && !arm) || (op == token.EQL && arm) {
+						tested = true
 					}
 				}
 			}
-			r.Check(okErr, tname+"|DCMI query error", ret.Pos(), "a failing fallback query is an error", "the fallback query's error is not tested before its result is used")
+			if !tested {
+				a.okErr = false
+			}
+		}
+	})
+	for _, which := range []string{"standard", "DCMI"} {
+		a := aggs[which]
+		if a == nil {
+			continue
+		}
+		r.Check(a.okMap, tname+"|"+which+" result mapping", a.pos, "Inlet/CPU/Baseboard read under their entity keys", "result fields are not read from the map under the matching entity IDs")
+		if which == "DCMI" {
+			r.Check(a.okErr, tname+"|DCMI query error", a.pos, "a failing fallback query is an error", "the fallback query's error is not tested before its result is used")
 		}
 	}
 
